@@ -68,6 +68,23 @@ def main():
         raw = np.ascontiguousarray(a).tobytes()
         return [raw[i * k:(i + 1) * k].hex() for i in range(len(a))]
 
+    class Spy:
+        """records the calls the Python page readers make to the generic native index decoder"""
+        def __enter__(self):
+            from fastparquet import core
+            self.mod = core.encoding            # (core.py binds the compiled module under the name `encoding`)
+            self.calls = []
+            self.orig = self.mod.read_rle_bit_packed_hybrid
+
+            def spy(io_obj, width, length, o=None, itemsize=4, *a, **k):
+                self.calls.append([int(width), int(itemsize), int(o.len) if hasattr(o, "len") else -1])
+                return self.orig(io_obj, width, length, o, itemsize, *a, **k)
+            self.mod.read_rle_bit_packed_hybrid = spy
+            return self
+
+        def __exit__(self, *exc):
+            self.mod.read_rle_bit_packed_hybrid = self.orig
+
     def run(c):
         fn = c["fn"]
         if fn == "read_bitpacked":
@@ -190,9 +207,10 @@ def main():
             header = pt.PageHeader(type=0, uncompressed_page_size=len(page), compressed_page_size=len(page), data_page_header=daph)
             md = pt.ColumnMetaData(type=pt.Type.INT32, path_in_schema=["c"], codec=0, num_values=c["n"], encodings=[8],
                                    total_uncompressed_size=len(page), total_compressed_size=len(page), data_page_offset=0)
-            defi, rep, values = core.read_data_page(io.BytesIO(page), helper, header, md, selfmade=bool(c.get("selfmade")))
+            with Spy() as spy:
+                defi, rep, values = core.read_data_page(io.BytesIO(page), helper, header, md, selfmade=bool(c.get("selfmade")))
             return ["ok", [int(x) for x in np.asarray(values)], None if defi is None else [int(x) for x in np.asarray(defi)],
-                    str(np.asarray(values).dtype)]
+                    str(np.asarray(values).dtype), spy.calls]
         if fn == "page_v2_dict":
             # the v2 caller: core.read_data_page_v2 on a foreign RLE_DICTIONARY page (indices of width w, optional nulls)
             import io
@@ -218,9 +236,10 @@ def main():
                 assign = np.full(c["n"], -7, dtype=c["adt"])
             else:
                 assign = np.full(c["n"], -7, dtype=np.float64 if c["optional"] else np.int64)
-            core.read_data_page_v2(io.BytesIO(page), helper, col_se, h2, md, Ident(), assign, 0, bool(c.get("use_cat")), 0, ph,
-                                   selfmade=bool(c.get("selfmade")))
-            return ["ok", [None if (x != x) else int(x) for x in assign], None, str(assign.dtype)]
+            with Spy() as spy:
+                core.read_data_page_v2(io.BytesIO(page), helper, col_se, h2, md, Ident(), assign, 0, bool(c.get("use_cat")), 0, ph,
+                                       selfmade=bool(c.get("selfmade")))
+            return ["ok", [None if (x != x) else int(x) for x in assign], None, str(assign.dtype), spy.calls]
         if fn == "numpyio":
             # a small script of NumpyIO operations
             buf = outbuf(c["cap"])
